@@ -3,7 +3,7 @@ use crate::world::{RealMsg, World, WorldCfg};
 use serde_json::{json, Map, Value};
 
 /// Canonical form for comparing TLC's ToJson output with projections: empty arrays and empty
-/// objects are identified, `hb` fields are optionally stripped, numbers are integers.
+/// objects are identified, `hb` and `fd` fields are optionally stripped, numbers are integers.
 pub fn canon(v: &Value, strip_hb: bool) -> Value {
     match v {
         Value::Array(a) => {
@@ -16,7 +16,7 @@ pub fn canon(v: &Value, strip_hb: bool) -> Value {
         Value::Object(o) => {
             let mut m = Map::new();
             for (k, x) in o {
-                if strip_hb && k == "hb" {
+                if strip_hb && (k == "hb" || k == "fd") {
                     continue;
                 }
                 m.insert(k.clone(), canon(x, strip_hb));
